@@ -21,6 +21,9 @@ use super::messages::StopMessage;
 use super::SupervisionEvent;
 use crate::actor::actor_properties::ActorProperties;
 use crate::concurrency::JoinHandle;
+#[cfg(feature = "verif_hooks")]
+use crate::verif::chan::MpscUnboundedReceiver as InputPortReceiver;
+#[cfg(not(feature = "verif_hooks"))]
 use crate::concurrency::MpscUnboundedReceiver as InputPortReceiver;
 use crate::concurrency::OneshotReceiver;
 use crate::errors::MessagingErr;
